@@ -65,6 +65,10 @@ func ruleC07(r *Report) {
 	// the RSA key store cannot sign at all
 	r.Rule("C07.idp-key", "the IdP's signing context is built from the configured Signer when there is one, else from the Key, with the configured signature method (C06.ctx, borrowed): every supported key type and method yields a response", 2)
 	r.borrow("C06.ctx", "C07.idp-key", func() { checkC06Ctx(r, p) })
+	r.Rule("C07.cert-text", "in the encryption-certificate selector the base64 text that is decoded and parsed as the SP's certificate has had all white space removed (regexp \\s replaced by \"\", strings.Fields joined, or a helper doing so), not only its ends trimmed: metadata wraps and indents certificates, the decoder skips CR/LF only", 1)
+	safely(r, func() { checkCertText(r, p, "C07.cert-text") })
+	r.Rule("C07.unencrypted-path", "an SP that publishes no encryption certificate is answered in clear: on the 'no certificate string was found' path the selector returns os.ErrNotExist itself (or wraps it, when the emitter tests with errors.Is), the value the emitter recognises", 1)
+	safely(r, func() { checkNoKeyOutcome(r, p, "C07.unencrypted-path") })
 	r.Rule("C07.encryption-key", "the IdP's encryption certificate is a function of the SP metadata registered now (C08.current-key, borrowed): after a key roll-over the SP can decrypt what the IdP sends", 1)
 	r.borrow("C08.current-key", "C07.encryption-key", func() {
 		sel, _ := encCertSelector(p)
